@@ -56,15 +56,15 @@ impl Format for Blp {
         let parsed = if seed.aux == 1 {
             // BLP0: mip levels live in external files, handed over by the callback
             let p = rec.call("blp::parse_blp_with_externals", || parse_blp_with_externals(input, |i| Ok(ext.get(i).map(|v| v.as_slice()))));
-            let _ = rec.call("blp::parse_blp", || parse_blp(input));
+            let _ = rec.leaf("blp::parse_blp", || parse_blp(input));
             p
         } else {
-            let _ = rec.call("blp::parse_blp_with_externals", || parse_blp_with_externals(input, |i| Ok(ext.get(i).map(|v| v.as_slice()))));
+            let _ = rec.leaf("blp::parse_blp_with_externals", || parse_blp_with_externals(input, |i| Ok(ext.get(i).map(|v| v.as_slice()))));
             rec.call("blp::parse_blp", || parse_blp(input))
         };
-        let _ = rec.call("blp::load_blp_from_buf", || load_blp_from_buf(input));
+        let _ = rec.leaf("blp::load_blp_from_buf", || load_blp_from_buf(input));
         if let Some(im) = parsed {
-            rec.call_plain("BlpImage::mipmap_info", || {
+            rec.leaf_plain("BlpImage::mipmap_info", || {
                 let _ = im.image_count();
                 let _ = im.mipmap_info();
                 let _ = im.best_mipmap_for_size(64);
@@ -78,7 +78,7 @@ impl Format for Blp {
             lv.dedup();
             for lvl in lv {
                 let ep = if lvl == 0 { "blp::blp_to_image[level 0]" } else { "blp::blp_to_image[level >= 1]" };
-                let _ = rec.call(ep, || blp_to_image(&im, lvl));
+                let _ = rec.leaf(ep, || blp_to_image(&im, lvl));
             }
         }
     }
